@@ -11,9 +11,9 @@
      wf_ms s                  positive part >= 0, negative part <= 0 (every set the code builds)
      mixed_ms s               positive part > 0 and negative part < 0
      through_union s rs       s joined with the top and bottom sets of the in-flow results rs *)
-From Coq Require Import ZArith QArith Bool List.
+From Coq Require Import ZArith QArith Qminmax Bool List.
 From TV Require Import Num.Num Num.QNum Gen.BlockGen Model.Block Model.BlockLeaf Model.BlockTree
-                       Proofs.BlockProofs Proofs.BlockWitness.
+                       Proofs.BlockProofs Proofs.BlockWitness Proofs.BlockAudit.
 Import ListNotations.
 Open Scope Q_scope.
 
@@ -24,8 +24,15 @@ Theorem C10_resolve_spec : forall l : list Q,
 Proof. exact resolve_spec_list. Qed.
 
 (* clause 1: with non-negative margins, no relative insets and H_ct, in-flow children are stacked in document order
-   without overlapping (absolute items may be interleaved) *)
-Theorem C10_order_no_overlap : forall (P : Params XQ) xs i j ri rj,
+   without overlapping (absolute items may be interleaved).
+   PARTIAL (renamed in the audit, wave 5c).  Missing with respect to the property text ("in-flow children with non-negative
+   margins ... without overlapping"): (1) the premise H_ct (a child that reports margins_can_collapse_through has height 0) is
+   NOT guaranteed by the implementation: C10_ct_refuted / known finding ct-positive-height -- a percentage-height child is
+   overlapped by its sibling; (2) `nonneg_ok` also asks the margin sets the child REPORTS (co_top / co_bottom, which include
+   margins of grandchildren collapsing through) to be non-negative, which non-negative margins of the children alone do not
+   give; (3) no relative inset (a relatively positioned child is shifted after layout and may overlap: by design, not in the
+   property's text). *)
+Theorem C10_order_no_overlap_partial : forall (P : Params XQ) xs i j ri rj,
   fin_params P -> Forall (nonneg_ok P) xs ->
   nth_error (io_results (block_inflow P xs)) i = Some ri -> nth_error (io_results (block_inflow P xs)) j = Some rj ->
   (i < j)%nat -> ir_inflow ri = true -> ir_inflow rj = true ->
@@ -33,8 +40,13 @@ Theorem C10_order_no_overlap : forall (P : Params XQ) xs i j ri rj,
 Proof. exact order_no_overlap. Qed.
 
 (* clause 2: auto width, no min/max width, non-auto margins, not a table: the width passed to the child as known is
-   inner_width - (margin_left + margin_right); the stored size is what the child returned.  Any Num instance (F32 too). *)
-Theorem C10_fill_width : forall (T : Type) (N : Num T) (P : Params T) xs k it co ml mr,
+   inner_width - (margin_left + margin_right); the stored size is what the child returned.  Any Num instance (F32 too).
+   PARTIAL (renamed in the audit, wave 5c): "is exactly as wide as the container's content box minus its horizontal margins" is
+   shown as far as the block algorithm goes -- that width is handed to the child as its KNOWN width and the child's answer is
+   stored unchanged (`ir_size r = co_size co`, the oracle value).  That the child then IS that wide is closed only for leaves
+   (C10_fill_width_leaf); for nested block / flex / grid children it is the KnownDimsRespected interface, not proved here.
+   Extra premise: not a table. *)
+Theorem C10_fill_width_partial : forall (T : Type) (N : Num T) (P : Params T) xs k it co ml mr,
   nth_error xs k = Some (it, co) -> position_is_absolute (it_position it) = false ->
   it_is_table it = false -> s_w (it_size it) = None -> s_w (it_min_size it) = None -> s_w (it_max_size it) = None ->
   r_left (item_margin P it) = Some ml -> r_right (item_margin P it) = Some mr ->
@@ -86,6 +98,14 @@ Theorem C10_margin_collapse_partial : forall (P : Params XQ) pre it_i co_i it_j 
        val (ms_resolve (ms_collapse_with_set (ir_bottom_set r_i) (ir_top_set r_j)))).
 Proof. exact margin_collapse_adjacent. Qed.
 
+(* the right-hand sides of the two theorems above in the words of the property text: collapsing two margin sets and resolving
+   gives the larger of the two positive parts plus the most negative of the two negative parts -- for two positive margins the
+   larger one, for a positive and a negative one their sum *)
+Theorem C10_collapse_with_set_spec : forall a b : MarginSet XQ, fin_ms a -> fin_ms b ->
+  exists r, ms_resolve (ms_collapse_with_set a b) = Fin r /\
+            r == Qmax (val (ms_positive a)) (val (ms_positive b)) + Qmin (val (ms_negative a)) (val (ms_negative b)).
+Proof. exact collapse_with_set_spec. Qed.
+
 (* the proviso is needed: A {height 20, margin-bottom -10} followed by B {margin-top 20, first child with margin-top -5}
    (B's LayoutOutput computed by the model of compute_inner): every premise holds, B's top set {20, -5} is mixed, the
    distance is 5 but the adjoining margins {-10, 20, -5} collapse to 10.  Known finding `mixed-sign-top-set`. *)
@@ -110,7 +130,7 @@ Qed.
 (* H_ct is not guaranteed by compute_inner: its test resolves size.height against parent_size (height None in block
    flow); a child {height 50%, one empty block leaf} in a 100 x 100 container gets known height 50, reports
    margins_can_collapse_through = true, and its 10 px sibling is placed at y = 0 < 0 + 50.  All other premises of
-   C10_order_no_overlap hold.  Known finding `ct-positive-height`. *)
+   C10_order_no_overlap_partial hold.  Known finding `ct-positive-height`. *)
 Theorem C10_ct_refuted :
   exists (P : Params XQ) xs ri rj,
     fin_params P /\ Forall (order_premises P) xs /\
@@ -164,9 +184,82 @@ Example C10_example_fill_width :
   end.
 Proof. exact ex_fill_width. Qed.
 
+
+(* ---------------------------------------------------------------------------------------------------------------------
+   Computed instances of the premises (audit, wave 5c) *)
+
+(* the premises of C10_margin_collapse_through_partial hold of the A / E / B example above (E is collapsed through) *)
+Example C10_example_collapse_premises :
+  match ex2_xs with
+  | [(it_i, co_i); x_e; (it_j, co_j)] =>
+      position_is_absolute (it_position it_i) = false /\ fin_item w_P it_i co_i /\ co_ct co_i = false /\
+      val (item_off_y it_i) == 0 /\ wf_ms (co_bottom co_i) /\ Forall (through_ok w_P) [x_e] /\
+      position_is_absolute (it_position it_j) = false /\ fin_item w_P it_j co_j /\
+      val (item_off_y it_j) == 0 /\ wf_ms (co_top co_j)
+  | _ => False
+  end.
+Proof. exact ex2_premises. Qed.
+
+(* C10_margin_collapse_partial (adjacent siblings) with non-empty `pre` and `post`: P {h 5, mb 2} A {h 20, mb 10}
+   B {h 10, mt -3} C {h 4}: y = 0, 7, 34, 44; the distance A..B is 10 + (-3) = 7 (one positive, one negative margin: their sum) *)
+Definition ex3_p : BStyle XQ := base_style Auto (Len (qz 5)) 0 2.
+Definition ex3_a : BStyle XQ := base_style Auto (Len (qz 20)) 0 10.
+Definition ex3_b : BStyle XQ := base_style Auto (Len (qz 10)) (-3) 0.
+Definition ex3_c : BStyle XQ := base_style Auto (Len (qz 4)) 0 0.
+Definition ex3_xs : list (Item XQ * ChildOut XQ) :=
+  match items_of [ex3_p; ex3_a; ex3_b; ex3_c] with
+  | [p; a; b; c] => [(p, leaf_child w_P p ex3_p); (a, leaf_child w_P a ex3_a); (b, leaf_child w_P b ex3_b); (c, leaf_child w_P c ex3_c)]
+  | _ => []
+  end.
+Example C10_example_adjacent :
+  match ex3_xs with
+  | [x_p; (it_i, co_i); (it_j, co_j); x_c] =>
+      Forall (item_ok w_P) [x_p] /\
+      position_is_absolute (it_position it_i) = false /\ fin_item w_P it_i co_i /\ co_ct co_i = false /\
+      val (item_off_y it_i) == 0 /\ wf_ms (co_bottom co_i) /\
+      position_is_absolute (it_position it_j) = false /\ fin_item w_P it_j co_j /\
+      val (item_off_y it_j) == 0 /\ wf_ms (co_top co_j)
+  | _ => False
+  end /\
+  map (fun r => (ir_y r, s_h (ir_size r), ir_top_set r, ir_bottom_set r)) (io_results (block_inflow w_P ex3_xs)) =
+  [(Fin 0, Fin 5, mkMS (Fin 0) (Fin 0), mkMS (Fin 2) (Fin 0)); (Fin 7, Fin 20, mkMS (Fin 0) (Fin 0), mkMS (Fin 10) (Fin 0));
+   (Fin 34, Fin 10, mkMS (Fin 0) (Fin (-3)), mkMS (Fin 0) (Fin 0)); (Fin 44, Fin 4, mkMS (Fin 0) (Fin 0), mkMS (Fin 0) (Fin 0))] /\
+  ~ mixed_ms (mkMS (Fin 0) (Fin (-3))) /\
+  val (ms_resolve (ms_collapse_with_set (mkMS (Fin 10) (Fin 0)) (mkMS (Fin 0) (Fin (-3))))) == 34 - (7 + 20).
+Proof.
+  split; [|split; [|split]].
+  - vm_compute. repeat split; try reflexivity; try discriminate; try exact I; try (intro; discriminate).
+    apply Forall_cons; [|apply Forall_nil]. right. repeat split; try reflexivity; try discriminate; try exact I.
+  - vm_compute. reflexivity.
+  - unfold mixed_ms, mixed_qs. vm_compute. intros [H _]. discriminate H.
+  - vm_compute. reflexivity.
+Qed.
+
+(* C10_fill_width_partial on io_results (block_inflow ..) itself, for the second of two children *)
+Definition ex4_p : BStyle XQ := base_style Auto (Len (qz 5)) 0 2.
+Definition ex4_xs : list (Item XQ * ChildOut XQ) :=
+  match items_of [ex4_p; ex_fw] with
+  | [p; f] => [(p, leaf_child w_P p ex4_p); (f, leaf_child w_P f ex_fw)]
+  | _ => []
+  end.
+Example C10_example_fill_width_inflow :
+  (exists it co, nth_error ex4_xs 1 = Some (it, co) /\ position_is_absolute (it_position it) = false /\
+     it_is_table it = false /\ s_w (it_size it) = None /\ s_w (it_min_size it) = None /\ s_w (it_max_size it) = None /\
+     r_left (item_margin w_P it) = Some (Fin 5) /\ r_right (item_margin w_P it) = Some (Fin 7)) /\
+  inner_width w_P = Fin 100 /\
+  option_map (fun r => (ir_inflow r, s_w (ir_known r), s_w (ir_size r), ir_x r)) (nth_error (io_results (block_inflow w_P ex4_xs)) 1)
+  = Some (true, Some (Fin 88), Fin 88, Fin 5).
+Proof.
+  split; [|split].
+  - do 2 eexists. split; [vm_compute; reflexivity|]. vm_compute. repeat split; reflexivity.
+  - vm_compute. reflexivity.
+  - vm_compute. reflexivity.
+Qed.
+
 Print Assumptions C10_resolve_spec.
-Print Assumptions C10_order_no_overlap.
-Print Assumptions C10_fill_width.
+Print Assumptions C10_order_no_overlap_partial.
+Print Assumptions C10_fill_width_partial.
+Print Assumptions C10_collapse_with_set_spec.
 Print Assumptions C10_fill_width_leaf.
 Print Assumptions C10_margin_collapse_through_partial.
 Print Assumptions C10_margin_collapse_partial.
